@@ -27,7 +27,7 @@ _installed = False
 _LINE_CACHE = {}
 
 SEM_TIMEOUT = 120.0
-STRATEGIES = ("uniform", "pct", "rtc", "targeted")
+STRATEGIES = ("uniform", "pct", "rtc", "targeted", "burst", "lockstep")
 
 
 class SimAbort(BaseException):
@@ -131,7 +131,7 @@ class SimClock:
 
 
 class SimThread:
-    __slots__ = ("id", "sem", "thread", "local", "done", "prio", "last", "task_active", "killed")
+    __slots__ = ("id", "sem", "thread", "local", "done", "prio", "last", "task_active", "killed", "quota")
 
     def __init__(self, tid):
         self.id = tid
@@ -143,6 +143,7 @@ class SimThread:
         self.last = None
         self.task_active = False
         self.killed = None
+        self.quota = 0
 
 
 class Session:
@@ -182,6 +183,10 @@ class Session:
         self.strategy = strat
         self.p = float(spec.get("p", 0.0))
         self.points = set(spec.get("points", ()))
+        self.burst_lo, self.burst_hi = spec.get("burst", (0, 0))
+        self.q = int(spec.get("q", 1))
+        self.max_offset = int(spec.get("max_offset", 0))
+        self.ladder = int(spec.get("ladder", 0))
         self._next_prio = 0.0
 
     # ------------------------------------------------------------------ context manager
@@ -241,6 +246,22 @@ class Session:
             strat = self.strategy
             if strat == "uniform":
                 if self.rng.random() < self.p:
+                    others = [u for u in self.threads if not u.done and u is not t]
+                    if others:
+                        nxt = others[self.rng.randrange(len(others))]
+            elif strat == "lockstep":
+                # round-robin, q instructions each, after a small per-thread head start: explores
+                # "one task is a few instructions behind another" systematically (all tasks run the same code)
+                t.quota -= 1
+                if t.quota <= 0:
+                    t.quota = self.q
+                    alive = [u for u in self.threads if not u.done]
+                    if len(alive) > 1:
+                        i = alive.index(t)
+                        nxt = alive[(i + 1) % len(alive)]
+            elif strat == "burst":
+                # every instruction is a context switch inside one window of the run, run-to-completion outside
+                if self.burst_lo <= self.steps < self.burst_hi:
                     others = [u for u in self.threads if not u.done and u is not t]
                     if others:
                         nxt = others[self.rng.randrange(len(others))]
@@ -338,6 +359,11 @@ class Session:
             t = SimThread(base + k)
             if self.strategy == "pct":
                 t.prio = self.rng.random() if self.rng is not None else 0.0
+            if self.strategy == "lockstep":
+                if self.ladder:
+                    t.quota = self.q + (processes - 1 - k) * self.ladder  # worker k runs d instructions ahead of k+1
+                elif self.rng is not None:
+                    t.quota = self.q + self.rng.randrange(0, self.max_offset + 1)
             th = threading.Thread(target=body, args=(t,), daemon=True, name="sim-worker-%d" % t.id)
             t.thread = th
             workers.append(t)
@@ -595,6 +621,13 @@ def make_spec(rng, est_steps, allow=STRATEGIES):
     elif strat == "pct":
         d = rng.choice((1, 2, 3))
         spec["points"] = sorted(rng.randrange(1, est) for _ in range(d))
+    elif strat == "lockstep":
+        spec["q"] = rng.choice((1, 1, 2, 3, 5, 8, 13))
+        spec["max_offset"] = rng.choice((0, 3, 8, 20, 60))
+    elif strat == "burst":
+        length = rng.choice((30, 100, 300, 1000))
+        start = rng.choice((0, 0, rng.randrange(0, max(1, est // 4)), rng.randrange(0, est)))
+        spec["burst"] = [start, start + length]
     elif strat == "targeted":
         k = rng.choice((1, 2, 3, 4))
         pts = []
